@@ -126,7 +126,7 @@ def run_job(exe: str, evfile: str, nevents: int, timeout: int = 60, wrapper: Lis
             elif l.startswith("RETRIEVE_FAIL"):
                 if cur is not None and events[cur]["retrieves"]:
                     events[cur]["retrieves"][-1]["ok"] = False
-            elif l.split(" ")[0] in ("NULL_DEREF", "INVALID_HANDLE_DEREF", "TOKEN_UNINITIALIZED", "MODEL_MISSING", "ANA_CHECK_FAIL", "TREE_MISSING", "BOOK_DUPLICATE", "GETATTR", "TOKEN_USE"):
+            elif l.split(" ")[0] in ("NULL_DEREF", "INVALID_HANDLE_DEREF", "TOKEN_UNINITIALIZED", "MODEL_MISSING", "ANA_CHECK_FAIL", "TREE_MISSING", "BOOK_DUPLICATE", "GETATTR", "TOKEN_USE", "ECHO"):
                 if cur is not None:
                     events[cur]["flags"].append(l)
                 elif book:
@@ -175,6 +175,8 @@ def parse_val(s: str):
         return unhex(s[2:])
     if s.startswith("<unprintable"):
         return s
+    if s == "-0":
+        return -0.0
     try:
         return int(s)
     except ValueError:
